@@ -1012,10 +1012,10 @@ Section Progress.
   Definition phi (m : stepper C) (q : queues) : nat :=
     let f := m_flags m in
     if fl_fin f then 0 else if fl_tlf f then 1
-    else 2 + 3 * (length (q_int q) + length (q_ext q)) + 2 * b2n (fl_spont f) + b2n (negb (fl_stable f)).
+    else 2 + 4 * (length (q_int q) + length (q_ext q)) + 2 * b2n (fl_spont f) + b2n (negb (fl_stable f)).
 
   Lemma select_none : forall m q e, sel_some m e = false ->
-    select ch m q e = ({| m_flags := set_spont (set_stable (m_flags m) false) false; m_cancelled := m_cancelled m; m_cfg := m_cfg m |},
+    select ch m q e = ({| m_flags := set_spont (set_stable (m_flags m) false) (match e with Some _ => true | None => false end); m_cancelled := m_cancelled m; m_cfg := m_cfg m |},
                        q, R_MICROSTEPPED, []).
   Proof.
     intros m q e H. unfold select, sel_some in *. destruct (m_cfg m) as [c|]; auto.
